@@ -92,6 +92,7 @@ func runC07(c *Ctx) {
 	c.NotDec = []string{"get-after-update semantics and order independence of the root over all operation histories", "equality with an independent implementation and with the stack trie for all data", "reopen-from-database content equality", "that no tampered proof verifies (VerifyProof trusts a hash-keyed proof database; only the in-repo writer is checked)"}
 	c.Floors["W"] = 30
 	c.Floors["G"] = 20
+	c07Round3(c)
 
 	// ---- ownership of stores into nodes -----------------------------------------------------------------------
 	tabled := map[string]string{
